@@ -461,6 +461,31 @@ func registerEnv(p *Program) {
 	I["("+sdkTypes+"Context).WithEventManager"] = func(m *Machine, fr *Frame, fn *ssa.Function, a []Value) Value {
 		return a[0]
 	}
+	// CacheContext: a branch of every store (copy of the write list) and of the event log; the
+	// returned function writes the branch back into the parent's stores
+	I["("+sdkTypes+"Context).CacheContext"] = func(m *Machine, fr *Frame, fn *ssa.Function, a []Value) Value {
+		parent := ctxOf(a[0])
+		child := parent.clone()
+		child.stores = map[string]*StoreData{}
+		for name, sd := range parent.stores {
+			cp := *sd
+			cp.writes = append([]kvWrite(nil), sd.writes...)
+			child.stores[name] = &cp
+		}
+		child.events = &EventLog{events: append([]Value(nil), parent.events.events...)}
+		write := &NativeFn{name: "cacheContext.write", call: func(m *Machine, _ []Value) Value {
+			for name, sd := range child.stores {
+				if psd, ok := parent.stores[name]; ok {
+					*psd = *sd
+				} else {
+					parent.stores[name] = sd
+				}
+			}
+			parent.events.events = child.events.events
+			return nil
+		}}
+		return Tuple{child, write}
+	}
 	I["("+sdkTypes+"Context).HeaderHash"] = func(m *Machine, fr *Frame, fn *ssa.Function, a []Value) Value {
 		return m.mkByteSliceConst(make([]byte, 32))
 	}
